@@ -165,7 +165,7 @@ def add_counts(ctx, v):
             ctx.cov["deviations_observed"][fid] = ctx.cov["deviations_observed"].get(fid, 0) + extra
 
 
-def judge_trace(ctx, trace, source, kd, max_events=40000):
+def judge_trace(ctx, trace, source, kd, max_events=15000):
     v = lib.judge(ctx, MODULE_T, t_cfg(ctx, kd), trace, max_events=max_events)
     ctx.stage("judge", source=source, events=v["events"], violations=v.get("nviol", len(v["violations"])),
               deviations={f: v.get("n" + f, 0) for f in ALL_FIDS if v.get("n" + f, 0)}, wall_s=v["wall_s"])
